@@ -74,6 +74,45 @@ def reproducible(ncalls):
     return {'results': [{'name': n, 'verdict': r[0], 'model': r[1]} for n, r in zip(names, res)], 'stats': cube_stats(ex, models)}
 
 
+def injective():
+    """next() is an injective function of the counter and advances it by exactly one: two generators of one namespace
+    standing at two DIFFERENT arbitrary counter values issue different ids.  With the +1 step this is the inductive form of
+    'no call ever returns an id that another call has returned or will return' for any number of calls (no bound on the
+    distance between the two calls, unlike the consecutive-calls obligations)"""
+    smt.STATS.__init__()
+    ex, L, models = make_engine()
+    inp = Inputs(qty_mode='full')
+    st = State()
+    ns = inp.var('ns', 128)
+    cs = [inp.var('c1', 64), inp.var('c2', 64)]
+    gen, st, _ = ex.call('UuidGenerator::new', [ns], st)
+    ci = L.field_index('UuidGenerator', 'counter')
+    ids, after, live = [], [], []
+    for k, c in enumerate(cs):
+        root = ex.alloc(st, gen[:ci] + (c,) + gen[ci + 1:], 'genc%d' % k)
+        r, st, l = ex.call('UuidGenerator::next', [RefV(root, ())], st)
+        ids.append(r)
+        live.append(l)
+        after.append(st.mem[root][ci])
+    apps = models.v5_apps
+    ax = []
+    for i in range(len(apps)):
+        for j in range(i):
+            a, b = apps[i], apps[j]
+            ax.append(S.Implies(S.Eq(a[2], b[2]), S.And(S.Eq(a[0], b[0]), S.Eq(a[1], b[1]))))
+    top = S.bv((1 << 64) - 1, 64)
+    dom = [S.Ult(cs[0], top), S.Ult(cs[1], top)]
+    both = S.And(live)
+    goals = [S.And(both, S.Not(S.Eq(cs[0], cs[1])), S.Eq(ids[0], ids[1])),
+             S.And(both, S.Not(S.Eq(after[0], S.Add(cs[0], S.bv(1, 64))))),
+             both]
+    res = smt.run_batch(ax + dom + models.assumptions, goals, timeout=120, model_vars=inp.vars)
+    names = ['generators of one namespace standing at different counter values issue different ids (any distance between the calls)',
+             'next() advances the counter by exactly one',
+             'reach: next() returns from an arbitrary counter value']
+    return {'results': [{'name': n, 'verdict': r[0], 'model': r[1]} for n, r in zip(names, res)], 'stats': cube_stats(ex, models)}
+
+
 def run(tier, seed):
     run = Run('C14', tier, seed)
     calls = 2 if tier == 'quick' else 3
@@ -112,6 +151,47 @@ def run(tier, seed):
                     run.violation(r['name'][:40], {'property': 'C14', 'obligation': r['name'], 'namespace': uuid_str(ns), 'native_runs': outs})
                 else:
                     run.inconclusive_('%s: model namespace %s does not reproduce natively (%s)' % (r['name'], uuid_str(ns), outs))
+            else:
+                run.inconclusive_('%s: %s' % (r['name'], r['model']))
+    (res, err), = parallel_map([(injective, ())], jobs=1)
+    run.bounds['injectivity'] = 'two arbitrary 64-bit counter values (< 2^64 - 1), arbitrary namespace; one call each'
+    if err:
+        run.inconclusive_('injectivity: ' + err)
+    else:
+        from ..framework import run_native
+        from ..history import uuid_str
+        run.absorb_stats(res['stats'])
+        for i, r in enumerate(res['results']):
+            if i == 2:
+                run.witnesses += 1
+                if r['verdict'] == 'sat':
+                    run.witness_sat += 1
+                else:
+                    run.inconclusive_('vacuous witness %s: %s' % (r['name'], r['verdict']))
+                continue
+            run.obligations += 1
+            if r['verdict'] == 'unsat':
+                run.discharged += 1
+            elif r['verdict'] == 'sat':
+                m = r['model']
+                ns, c1, c2 = m.get('ns', 0), m.get('c1', 0), m.get('c2', 0)
+                outs = []
+                for c0, n in ((c1, 2), (c2, 1)):
+                    nat = run_native({'kind': 'level', 'price': 1, 'namespace': uuid_str(ns), 'generator_counter': c0, 'ops': [{'op': 'next', 'n': n}]})
+                    outs.append((nat.get('results') or [{}])[0].get('ids'))
+                script = {'namespace': uuid_str(ns), 'counters': [c1, c2], 'native_ids': outs}
+                if i == 0:
+                    bad = bool(outs[0]) and bool(outs[1]) and outs[0][0] == outs[1][0]
+                else:
+                    # the second id of a generator at c1 must be the first id of a generator at c1 + 1
+                    nat = run_native({'kind': 'level', 'price': 1, 'namespace': uuid_str(ns), 'generator_counter': (c1 + 1) % (1 << 64), 'ops': [{'op': 'next', 'n': 1}]})
+                    nxt = (nat.get('results') or [{}])[0].get('ids')
+                    script['native_ids_at_c1_plus_1'] = nxt
+                    bad = bool(outs[0]) and bool(nxt) and outs[0][1] != nxt[0]
+                if bad:
+                    run.violation(r['name'][:40], dict({'property': 'C14', 'obligation': r['name']}, **script))
+                else:
+                    run.inconclusive_('%s: the model (namespace %s, counters %d / %d) does not reproduce natively (%s)' % (r['name'], uuid_str(ns), c1, c2, outs))
             else:
                 run.inconclusive_('%s: %s' % (r['name'], r['model']))
     return run.finish(explanation='uniqueness: the ids of 2 threads x N calls are pairwise different for every well-nested schedule, every namespace and every start counter; '
